@@ -290,6 +290,53 @@ inductive NodeFault
   | duplicateName | namedBlockInDef | namedBlockInCall | anonBlockInNamespace
   deriving DecidableEq, Repr
 
+/-- **every raise site of mako's compile-time exceptions, by fault class.**  Key: (enclosing function, first 32
+    characters of the message) as regenerated into `Generated.ErrPos.raiseSites`; value: the structural fault class of
+    the generator (`harness/c11_gen.py`) that plants it, `python` for the one site of `pyparser.parse`, or
+    `outside:<reason>` for a site no template text reaches / another property's subject. -/
+def siteClassTable : List ((String × String) × String) := [
+  (("Lexer.parse_until_text", "Expected: %s; unterminated tag o"), "unterminated-construct"),
+  (("Lexer.append_node", "Keyword '%s' not a legal ternary"), "illegal-ternary"),
+  (("Lexer.decode_raw_stream", "Found utf-8 BOM in file, with co"), "outside:encoding of a template given as bytes (C18), position (0,0)"),
+  (("Lexer.decode_raw_stream", "Unicode decode operation of enco"), "outside:encoding of a template given as bytes (C18), position (0,0)"),
+  (("Lexer.parse", "Unclosed tag: <%%%s>"), "unclosed-tag"),
+  (("Lexer.parse", "Unterminated control keyword: '%"), "unterminated-control"),
+  (("Lexer.match_tag_start", "Unclosed tag: <%%%s>"), "unclosed-text-tag"),
+  (("Lexer.match_tag_end", "Closing tag without opening tag:"), "closing-without-opening"),
+  (("Lexer.match_tag_end", "Closing tag </%%%s> does not mat"), "closing-mismatch"),
+  (("Lexer.match_control_line", "Invalid control line: '%s'"), "invalid-control-line"),
+  (("Lexer.match_control_line", "No starting keyword '%s' for '%s"), "no-starting-keyword"),
+  (("Lexer.match_control_line", "Keyword '%s' doesn't match keywo"), "keyword-mismatch"),
+  (("_TagMeta.__call__", "Invalid tag name: '%s'"), "invalid-tag-name"),
+  (("_TagMeta.__call__", "No such tag: '%s'"), "unknown-tag"),
+  (("Tag.__init__", "Missing attribute(s): %s"), "missing-attribute"),
+  (("Tag._parse_attributes", "Attribute '%s' in tag '%s' does "), "attribute-no-expression"),
+  (("Tag._parse_attributes", "Invalid attribute for tag '%s': "), "illegal-attribute"),
+  (("NamespaceTag.__init__", "'name' and/or 'import' attribute"), "namespace-needs-name"),
+  (("NamespaceTag.__init__", "<%namespace> may only have one o"), "namespace-file-and-module"),
+  (("DefTag.__init__", "Missing parenthesis in %def"), "missing-parenthesis"),
+  (("BlockTag.__init__", "%block may not specify an argume"), "block-signature"),
+  (("BlockTag.__init__", "Only named %blocks may specify a"), "anon-block-args"),
+  (("_GenerateRenderMethod.write_namespaces.NSDefVisitor.visitDefOrBase", "Can't put anonymous blocks insid"), "anon-block-in-namespace"),
+  (("_Identifiers._check_name_exists", "%%def or %%block named '%s' alre"), "duplicate-block"),
+  (("_Identifiers._reject_named_blocks.FindNamedBlocks.visitBlockTag", "Named block '%s' not allowed ins"), "named-block-in-def-or-call"),
+  (("_Identifiers.visitBlockTag", "Named block '%s' not allowed ins"), "named-block-in-def-or-call"),
+  (("parse", "(%s) %s (%r)"), "python"),
+  (("FindIdentifiers.visit_ImportFrom", "'import *' is not supported, sin"), "import-star"),
+  (("PythonFragment.__init__", "Fragment '%s' is not a partial c"), "fragment-not-partial"),
+  (("PythonFragment.__init__", "Unsupported control keyword: '%s"), "unsupported-keyword"),
+  (("FunctionDecl.__init__", "Code '%s' is not a function decl"), "outside:unreachable - the code parsed always begins with 'def '"),
+  (("FunctionDecl.__init__", "'**%s' keyword argument not allo"), "outside:unreachable - no caller passes allow_kwargs=False")]
+
+/-- the fault class of a regenerated raise site `(file, function, message prefix, coordinates)` -/
+def siteClass (site : String × String × String × String) : Option String :=
+  (siteClassTable.find? fun e => e.1.1 == site.2.1 && e.1.2 == site.2.2.1).map (·.2)
+
+/-- the coordinates of a raise site belong to the node the raising function is about (its `self` or one of its
+    own parameters), possibly adjusted – never to a variable of an enclosing function -/
+def siteUsesOwnNode (site : String × String × String × String) : Bool :=
+  ["self", "param", "self+override", "adjusted", "explicit"].contains site.2.2.2
+
 inductive ExcClass | syntaxException | compileException
   deriving DecidableEq, Repr
 
